@@ -26,14 +26,14 @@ def jobs():
                      'no whitespace, no disallowed character'], trusted=[ICU], timeout=600),
         Job('cif_normalize_pipeline', 'utils_h.c', entry='harness_cif_normalize', enforce='cif_normalize', tus=T,
             replace=['cif_unicode_normalize', 'cif_fold_case'], defines={'MAXN': 4}, flags=[],
-            reach=['normalized', 'normalize-failed'], min_obligations=10, timeout=600, replay=False,
+            reach=['normalized', 'normalize-failed'], min_obligations=10, timeout=900, mem_gb=40, replay=False,
             trusted=['contracts of cif_unicode_normalize (enforced in C17) and cif_fold_case (assumed: fresh buffer or error)'],
             clauses=['normalised form = NFC(casefold(NFD(name))) in exactly that order, terminated', 'intermediate buffers freed on every path',
                      'failure leaves *normalized untouched']),
     ]
 
 
-PENDING = ('cif_normalize_pipeline',)   # does not terminate within budget (is_fresh + free of symbolic-size blocks): not registered
+PENDING = ('cif_normalize_pipeline',)   # terminates with CaDiCaL and a 40 GB cap, but its contract / harness still fails obligations of their own making: not registered
 
 
 def check(tier):
